@@ -470,6 +470,15 @@ func (st *State) specBuiltin(env *Env, e *Expr) (SVal, types.Type, bool) {
 		}
 		b, _ := st.elab(env, e.Args[1])
 		return Select(pos, st.scalar(b)), tInt, true
+	case "cur":
+		// cur(e) inside old(...): e is evaluated in the state outside the old (used for old(f(cur(x.y))))
+		n := *env
+		if env.inOld {
+			n.cur = env.outer
+			n.inOld = false
+		}
+		v, t := st.elab(&n, e.Args[0])
+		return v, t, true
 	case "durstr":
 		a, _ := st.elab(env, e.Args[0])
 		return st.durStr(st.scalar(a)), tString, true
